@@ -22,6 +22,10 @@
 //        row-major resolver chose for the result) to comp answers.
 //   maybe a=<shape> to=<shape> : v = view::reshape(a, to) is nmtools_maybe<view>; answers has_value(v) / has_value(eval(v))
 //        and, when present, the comp answer of *v against *eval(v) — the maybe lifting of detail::eval itself.
+//   intofn fn=transpose_n|sum a=<shape> [axis=<k> keep=0|1] oshape=… olayout=row|col : the output handed to array::fn itself,
+//        na::transpose(a, None, None, out) / na::sum(a, axis, None, None, True|False, None, out); same answer as `into`.
+//        (Only for views that are not maybe-typed: with an output, eval of nmtools_maybe<view> would have to return
+//        nmtools_maybe<void>, which does not compile — never a silent outcome.)
 // Floats are printed as bit patterns (f<hex> / d<hex>).
 #include "c10_ops.hpp"
 using namespace c10;
@@ -157,9 +161,27 @@ static std::string serve_maybe(const Args& a) {
 }
 #endif
 
+#ifdef C10_MAYBE
+template <typename O> static std::string intofn_with(const Args& a) {
+    auto arr = mk<arr_t>(nats(a, "a"));
+    O out{}; if (!shape_to(out, nats(a, "oshape"))) return "bad-args";
+    size_t n = nm::size(out);
+    for (size_t k = 0; k < n; k++) out.data()[k] = (elem_t)-7;
+    std::string fn = get(a, "fn");
+    if (fn == "transpose_n") na::transpose(arr, nm::None, nm::None, out);
+    else if (fn == "sum") {
+        int ax = (int)integer(a, "axis");
+        if (integer(a, "keep")) na::sum(arr, ax, nm::None, nm::None, nm::True, nm::None, out);
+        else na::sum(arr, ax, nm::None, nm::None, nm::False, nm::None, out);
+    } else return "bad-args";
+    return "ok shape=" + fmt(to_uvec(nm::shape(out))) + " buf=" + buffer_of(out);
+}
+#endif
+
 std::string handle(const std::string& op, const Args& a) {
 #ifdef C10_MAYBE
     if (op == "maybe") return serve_maybe(a);
+    if (op == "intofn") return (has(a, "olayout") && get(a, "olayout") == "col") ? intofn_with<carr_t>(a) : intofn_with<arr_t>(a);
 #endif
     if (op != "comp" && op != "into") return "unknown-op";
     auto s = nats(a, "a");
